@@ -50,7 +50,7 @@ def replay(rows, directed):
 class C10(PropBase):
     id = 'C10'
     obs = {'wint', 'winttext', 'rtint', 'rint', 'has', 'stream'}
-    rule = ('removal-enabled graph (both classes; int or string ids) written with write_interactions (all delimiters / encodings / '
+    rule = ('removal-enabled graph (both classes; int, ASCII string or non-ASCII string ids) written with write_interactions (all delimiters / encodings / '
             'targets): rows must be the events of stream_interactions() in chronological order; reading back must give the same '
             'presence and the same stream; plus generated well-formed event logs (nested + +, - right after +, several pairs '
             'interleaved, either endpoint order) fed to read_interactions: presence must equal the replay of the log. '
